@@ -375,6 +375,36 @@ pub fn gen_params(rec: &mut Recorder, rng: &mut Rng, thorough: bool) {
         }
         rec.put(&format!("gen {f} {pk} {ws}"), &res(r));
     }
+    // the public default wrappers: with_defaults(F, P) is the derivation at the documented 10 MiB budget,
+    // and Encoder::with_defaults uses exactly that configuration
+    for it in 0..(if thorough { 3000 } else { 400 }) {
+        let pk = if it % 3 == 0 { rng.range(1, 65535) as u16 } else { *rng.pick(&pks) };
+        let al: u64 = if pk >= 64 { 8 } else { 1 };
+        let t = (pk as u64) - (pk as u64 % al);
+        if t == 0 { continue; }
+        let f = match rng.below(5) { 0 => rng.range(1, 4 * t), 1 => rng.logu(36).max(1), 2 => rng.range(1, 64 * 1024), 3 => 10 * 1024 * 1024 + rng.below(3 * t), _ => rng.range(1, 56403 * t) };
+        let ws = 10 * 1024 * 1024u64;
+        let r = guarded(move || oti_str(&Oti::with_defaults(f, pk)));
+        if let Some((t2, z, n, al2)) = spec_gen(&table, f, pk, ws) {
+            let want = format!("{f} {t2} {z} {n} {al2}");
+            match &r {
+                Ok(s) if *s != want => rec.impl_violation(format!("ObjectTransmissionInformation::with_defaults({f},{pk}) = {s}, RFC 4.3 at the documented 10 MiB budget gives {want}")),
+                Err(_) => rec.impl_violation(format!("ObjectTransmissionInformation::with_defaults({f},{pk}) panics, RFC 4.3 gives {want}")),
+                _ => {}
+            }
+            rec.count("with_defaults_in_domain");
+        }
+        rec.put(&format!("gen {f} {pk} {ws}"), &res(r));
+        if f <= 20000 && it % 8 == 0 {
+            let data = rng.bytes(f as usize);
+            let r = guarded(move || { let e = raptorq::Encoder::with_defaults(&data, pk); (oti_str(&e.get_config()), oti_str(&Oti::with_defaults(f, pk))) });
+            match r {
+                Ok((a, b)) => if a != b { rec.impl_violation(format!("Encoder::with_defaults(len {f}, {pk}) is configured {a}, with_defaults gives {b}")); },
+                Err(_) => if spec_gen(&table, f, pk, ws).is_some() { rec.impl_violation(format!("Encoder::with_defaults(len {f}, {pk}) panics")); },
+            }
+            rec.count("encoder_with_defaults");
+        }
+    }
     // encoder and decoder built from the derived parameters round-trip the object (small objects,
     // tight budgets so that Z > 1 and N > 1 occur)
     for it in 0..(if thorough { 300 } else { 40 }) {
